@@ -589,6 +589,8 @@ func checkJSONCase(orc *common.Oracle, c jsonCase, distinct map[string]bool) {
 		return
 	}
 	line, _, _ := locate(c.inp, p)
+	stderr = strings.ReplaceAll(stderr, tmpDir, "$TMP")
+	why = strings.ReplaceAll(why, tmpDir, "$TMP")
 	key := ""
 	switch {
 	case lineOnly && loneCRsBefore(c.inp, p) > 0 && rep.line < line && rep.line >= line-loneCRsBefore(c.inp, p):
@@ -913,6 +915,7 @@ func oracleQuery() {
 		if why == "" {
 			continue
 		}
+		stderr = strings.ReplaceAll(stderr, tmpDir, "$TMP")
 		key := fmt.Sprintf("lineinfo:query:%s:%x", shape, common.NewRand(uint64(len(contents))*131+uint64(p)).U64()&0xffffff)
 		if p >= 3 && contents[p-3:p] == "\ufffd" {
 			key = "lineinfo:ufffd-before-fault"
